@@ -193,6 +193,121 @@ func (d *differ) fromjsonDecodeValue(prog string, input any, ref, fo Obs) {
 	}
 }
 
+// A variant is a rewritten form of a differing program used only to classify the
+// difference, never as the judged program:
+//
+//	msg: every `catch B` becomes `catch (MASK | B)` where MASK replaces a string
+//	     error value by a constant. Error messages are not part of the property
+//	     (only where a program fails), but `catch` hands the message text to the
+//	     program. If both engines agree on the masked program, the original
+//	     difference was message text only.
+//	dv:  every `fromjson` becomes `fromjson | tovalue`, see fromjsonDecodeValue.
+//	dv+msg: both.
+type variant struct {
+	j               int
+	kind            string
+	fqText, refText string
+	fq, ref         []Obs
+}
+
+func variantsOf(j int, prog string) []variant {
+	var vs []variant
+	add := func(kind, fqText, refText string) {
+		if _, err := gojq.Parse(fqText); err != nil {
+			return
+		}
+		if _, err := gojq.Parse(refText); err != nil {
+			return
+		}
+		vs = append(vs, variant{j: j, kind: kind, fqText: fqText, refText: refText})
+	}
+	masked, hasCatch := maskCatch(prog)
+	hasFJ := fromjsonRe.MatchString(prog)
+	if hasCatch {
+		add("msg", masked, masked)
+	}
+	if hasFJ {
+		add("dv", viaToValue(prog), prog)
+	}
+	if hasCatch && hasFJ {
+		add("dv+msg", viaToValue(masked), masked)
+	}
+	return vs
+}
+
+const catchMask = `if type == "string" then "<message>" else . end`
+
+// maskCatch rewrites every `catch TERM` into `catch (MASK | TERM)`. TERM is, in
+// everything this harness generates, a parenthesised expression or a bare
+// identifier/variable/`.`; the result is used only if it parses.
+func maskCatch(prog string) (string, bool) {
+	var b strings.Builder
+	found := false
+	i := 0
+	for i < len(prog) {
+		if prog[i] == '"' {
+			// copy string literal (with interpolations; parentheses inside are balanced)
+			j := i + 1
+			for j < len(prog) && prog[j] != '"' {
+				if prog[j] == '\\' {
+					j++
+				}
+				j++
+			}
+			j = min(j+1, len(prog))
+			b.WriteString(prog[i:j])
+			i = j
+			continue
+		}
+		if strings.HasPrefix(prog[i:], "catch ") && (i == 0 || !isIdentByte(prog[i-1])) {
+			j := i + len("catch ")
+			end := j
+			if j < len(prog) && prog[j] == '(' {
+				depth := 0
+				inStr := false
+				for end < len(prog) {
+					c := prog[end]
+					if inStr {
+						if c == '\\' {
+							end++
+						} else if c == '"' {
+							inStr = false
+						}
+					} else if c == '"' {
+						inStr = true
+					} else if c == '(' {
+						depth++
+					} else if c == ')' {
+						depth--
+						if depth == 0 {
+							end++
+							break
+						}
+					}
+					end++
+				}
+			} else {
+				for end < len(prog) && (isIdentByte(prog[end]) || prog[end] == '.' || prog[end] == '$') {
+					end++
+				}
+			}
+			if end > j {
+				found = true
+				b.WriteString("catch (" + catchMask + " | " + prog[j:end] + ")")
+				i = end
+				continue
+			}
+		}
+		b.WriteByte(prog[i])
+		i++
+	}
+	return b.String(), found
+}
+
+func isIdentByte(c byte) bool {
+	return c == '_' || c >= '0' && c <= '9' || c >= 'a' && c <= 'z' || c >= 'A' && c <= 'Z'
+}
+
 // observe evaluates prog unbatched n times in fq and returns the distinct
 // observations (fq is expected to be deterministic; where it is not, that is
 // itself reported).
@@ -286,6 +401,13 @@ func (d *differ) compareBatch(progs []string, inputs []any, validate bool) {
 		nontrivial := false
 		for i, in := range inputs {
 			c.refs[i] = refRun(code, in)
+			if c.refs[i].Panic {
+				r.Count("reference_engine_go_panics", 1)
+				if r.Counter("reference_engine_go_panics") <= 2 {
+					r.Sample(map[string]any{"class": "the reference engine (gojq fork) itself panics", "program": p, "input": canon(in), "reference": c.refs[i].String()})
+					r.Logf("reference engine panics: program `%s` input %s: %v", p, canon(in), c.refs[i])
+				}
+			}
 			if len(c.refs[i].Outs) > 0 {
 				nontrivial = true
 			}
@@ -325,42 +447,45 @@ func (d *differ) compareBatch(progs []string, inputs []any, validate bool) {
 		}
 		validate = false
 	}
-	// Programs that use fromjson and differ are evaluated once more (one batch) with
-	// fromjson's result passed through tovalue, see fromjsonDecodeValue.
-	var leakIdx []int
+	// Second stage for the programs that differ: classify the difference with the
+	// two explicit, tested exception classes (see variantsOf). One more fq batch.
+	var vars []variant
 	for j, c := range ok {
-		if !fromjsonRe.MatchString(c.text) {
-			continue
-		}
 		for i := range inputs {
 			if !c.refs[i].Trunc && !sameObs(c.refs[i], obs[i][j]) {
-				leakIdx = append(leakIdx, j)
+				vars = append(vars, variantsOf(j, c.text)...)
 				break
 			}
 		}
 	}
-	leakObs := map[int][]Obs{}
-	if len(leakIdx) > 0 {
-		var sub []string
-		var subIdx []int
-		for _, j := range leakIdx {
-			t := viaToValue(ok[j].text)
-			if _, err := gojq.Parse(t); err == nil {
-				sub = append(sub, t)
-				subIdx = append(subIdx, j)
-			}
+	if len(vars) > 0 {
+		texts := make([]string, len(vars))
+		for k := range vars {
+			texts[k] = vars[k].fqText
 		}
-		so, err := d.fq.runBatch(sub, inputs)
-		for k, j := range subIdx {
-			col := make([]Obs, len(inputs))
-			for i := range inputs {
-				if err == nil {
-					col[i] = so[i][k]
-				} else {
-					col[i], _ = d.fq.run(sub[k], inputs[i])
+		so, err := d.fq.runBatch(texts, inputs)
+		for k := range vars {
+			v := &vars[k]
+			v.fq = make([]Obs, len(inputs))
+			v.ref = ok[v.j].refs
+			var code *gojq.Code
+			if v.refText != ok[v.j].text {
+				v.ref = make([]Obs, len(inputs))
+				var cerr error
+				if code, cerr = refCompile(v.refText); cerr != nil {
+					panic("c07: masked program does not compile in the reference: " + v.refText)
 				}
 			}
-			leakObs[j] = col
+			for i, in := range inputs {
+				if err == nil {
+					v.fq[i] = so[i][k]
+				} else {
+					v.fq[i], _ = d.fq.run(v.fqText, in)
+				}
+				if code != nil {
+					v.ref[i] = refRun(code, in)
+				}
+			}
 		}
 	}
 	for j, c := range ok {
@@ -369,8 +494,21 @@ func (d *differ) compareBatch(progs []string, inputs []any, validate bool) {
 			if c.refs[i].Trunc || sameObs(c.refs[i], obs[i][j]) {
 				continue
 			}
-			if lo, ok := leakObs[j]; ok && sameObs(c.refs[i], lo[i]) {
-				d.fromjsonDecodeValue(c.text, in, c.refs[i], obs[i][j])
+			explained := false
+			for k := range vars {
+				v := &vars[k]
+				if v.j != j || !sameObs(v.ref[i], v.fq[i]) {
+					continue
+				}
+				explained = true
+				if v.kind == "msg" {
+					r.Count("error_message_text_differs_only (messages are not compared)", 1)
+				} else {
+					d.fromjsonDecodeValue(c.text, in, c.refs[i], obs[i][j])
+				}
+				break
+			}
+			if explained {
 				continue
 			}
 			if batched {
